@@ -25,6 +25,7 @@ RULE = (
     'denotes M^T. One direction only (a missing tag is not a violation). Every concrete operator class found by '
     'walking AbstractLinearOperator.__subclasses__() must be instantiated at least once (thorough). '
     'non-trivial = the matrix is not a multiple of the identity and >= 1 tag or decorator is set.'
+    ' Also: every tag is judged on the matrix of basis applications of the operator as well (n <= 16); overlap-save Toeplitz operators with several FFT blocks; a one-element array with axes as the factor of k*A, A*k, A/k (if accepted, the scalar operator\'s claims are judged).'
 )
 ASSUMPTIONS = [
     'lx.TaggedLinearOperator and other lineax classes are not furax operators and are excluded',
